@@ -378,6 +378,9 @@ next:
 		for i, candidate := range rules {
 			// Special case "Return()".
 			if candidate.Rule == ReturnRule {
+				if len(l.stack) <= 1 {
+					return Token{}, errorf(l.pos, "lexer: return from the initial state")
+				}
 				l.stack = l.stack[:len(l.stack)-1]
 				parent = l.stack[len(l.stack)-1]
 				rules = l.def.rules[parent.name]
